@@ -690,4 +690,357 @@ theorem gen_HistoricallyOperation_update (fuel k : Nat) (prev : α) (o : DV α)
     "HistoricallyOperation" store hs v prev hv htv s
   exact ⟨_, h1, store', rfl, h2, v', h3, h4⟩
 
+/-! ### (3) `SinceOperation` -/
+
+namespace GOnUn
+
+/-! #### the mirror: one iteration of `sinceLoop` -/
+
+/-- `max(min(x, y), min(x, self.prev))` -/
+def svV (prev x y : α) : α := pmax (pmin x y) (pmin x prev)
+
+/-- the arguments of the recursive call of `sinceLoop` -/
+def sinceStep (a0 a1 b0 b1 : Tm) (av avn bv bvn : α) (ra rb : ASig α) (prev : α) (last : Option (Tm × α))
+    (res : ASig α) : ASig α × ASig α × α × Option (Tm × α) × ASig α :=
+  let emit := Tm.lt (tmMax a0 b0) (tmMin a1 b1)
+  (if Tm.lt a1 b1 then (a1, avn) :: ra else if Tm.lt b1 a1 then (a0, av) :: (a1, avn) :: ra else (a1, avn) :: ra,
+   if Tm.lt a1 b1 then (b0, bv) :: (b1, bvn) :: rb else (b1, bvn) :: rb,
+   if emit then svV prev av bv else prev,
+   if emit then some (tmMin a1 b1,
+      if Tm.lt a1 b1 then svV prev avn bv else if Tm.lt b1 a1 then svV prev av bvn else svV prev avn bvn) else last,
+   if emit then res ++ [(tmMax a0 b0, svV prev av bv)] else res)
+
+theorem sinceLoop_step (a0 a1 b0 b1 : Tm) (av avn bv bvn : α) (ra rb : ASig α) (prev : α) (last : Option (Tm × α))
+    (res : ASig α) :
+    AlgOn.sinceLoop ((a0, av) :: (a1, avn) :: ra) ((b0, bv) :: (b1, bvn) :: rb) prev last res =
+      (fun t : ASig α × ASig α × α × Option (Tm × α) × ASig α => AlgOn.sinceLoop t.1 t.2.1 t.2.2.1 t.2.2.2.1 t.2.2.2.2)
+        (sinceStep a0 a1 b0 b1 av avn bv bvn ra rb prev last res) := by
+  rw [AlgOn.sinceLoop]
+  unfold sinceStep svV
+  cases h1 : Tm.lt a1 b1 <;> cases h2 : Tm.lt b1 a1 <;> cases h3 : Tm.lt (tmMax a0 b0) (tmMin a1 b1) <;>
+    simp [h1, h2, h3]
+
+theorem sinceLoop_short (a b : ASig α) (prev : α) (last : Option (Tm × α)) (res : ASig α)
+    (h : a.length < 2 ∨ b.length < 2) : AlgOn.sinceLoop a b prev last res = (a, b, prev, last, res) := by
+  unfold AlgOn.sinceLoop
+  split
+  · simp only [List.length_cons] at h; omega
+  · rfl
+
+theorem sinceStep_length (a0 a1 b0 b1 : Tm) (av avn bv bvn : α) (ra rb : ASig α) (prev : α) (last : Option (Tm × α))
+    (res : ASig α) :
+    (sinceStep a0 a1 b0 b1 av avn bv bvn ra rb prev last res).1.length +
+      (sinceStep a0 a1 b0 b1 av avn bv bvn ra rb prev last res).2.1.length < (ra.length + 2) + (rb.length + 2) := by
+  unfold sinceStep
+  cases h1 : Tm.lt a1 b1 <;> cases h2 : Tm.lt b1 a1 <;> simp <;> omega
+
+/-! #### the pieces of the body -/
+
+def im1 (x : String) : E := .bin .sub (.loc x) (.int 1)
+def svE (x y : String) : E := .call2 "max" (.call2 "min" (.loc x) (.loc y)) (.call2 "min" (.loc x) (.loc "self.prev"))
+
+def sincePre (rest : S) : S :=
+  (.seq (.setLoc "a_start" (.idx (.idx (.loc "a") (im1 "i")) (.int 0)))
+  (.seq (.setLoc "a_end" (.idx (.idx (.loc "a") (.loc "i")) (.int 0)))
+  (.seq (.setLoc "b_start" (.idx (.idx (.loc "b") (im1 "j")) (.int 0)))
+  (.seq (.setLoc "b_end" (.idx (.idx (.loc "b") (.loc "j")) (.int 0)))
+  (.seq (.setLoc "a_val" (.idx (.idx (.loc "a") (im1 "i")) (.int 1)))
+  (.seq (.setLoc "b_val" (.idx (.idx (.loc "b") (im1 "j")) (.int 1)))
+  (.seq (.setLoc "a_val_next" (.idx (.idx (.loc "a") (.loc "i")) (.int 1)))
+  (.seq (.setLoc "b_val_next" (.idx (.idx (.loc "b") (.loc "j")) (.int 1))) rest))))))))
+
+def sinceBranch : S :=
+  (.ite (.bin .lt (.loc "a_end") (.loc "b_end"))
+    (.seq (.setLoc "last_val" (svE "a_val_next" "b_val")) (.delIdx "a" (im1 "i")))
+    (.ite (.bin .gt (.loc "a_end") (.loc "b_end"))
+      (.seq (.setLoc "last_val" (svE "a_val" "b_val_next")) (.delIdx "b" (im1 "j")))
+      (.seq (.setLoc "last_val" (svE "a_val_next" "b_val_next")) (.seq (.delIdx "a" (im1 "i")) (.delIdx "b" (im1 "j"))))))
+
+def sinceEmit : S :=
+  (.seq (.setLoc "lo" (.call2 "max" (.loc "a_start") (.loc "b_start")))
+  (.seq (.setLoc "hi" (.call2 "min" (.loc "a_end") (.loc "b_end")))
+  (.seq (.setLoc "val" .nan)
+  (.ite (.bin .lt (.loc "lo") (.loc "hi"))
+    (.seq (.setLoc "val" (svE "a_val" "b_val"))
+    (.seq (.appendLoc "sample_result" (.list2 (.loc "lo") (.loc "val")))
+    (.seq (.setLoc "self.prev" (.loc "val")) (.setLoc "last" (.list2 (.loc "hi") (.loc "last_val"))))))
+    .skip))))
+
+def sinceBody : S := sincePre (.seq sinceBranch sinceEmit)
+
+def sinceCond : E := (.and_ (.bin .gt (.call1 "len" (.loc "a")) (.int 1)) (.bin .gt (.call1 "len" (.loc "b")) (.int 1)))
+
+def sincePost : S := (.seq (.setLoc "self.sample_left_buf" (.loc "a")) (.seq (.setLoc "self.sample_right_buf" (.loc "b")) (.seq (.setLoc "self.last" (.loc "last")) (.ret (.loc "sample_result")))))
+
+theorem SinceOperation_update_body : Gen.DenseOn.SinceOperation_update.body =
+    (.seq (.setLoc "sample_result" .emptyList) (.seq (.setLoc "a" (.bin .add (.loc "self.sample_left_buf") (.loc "sample_left"))) (.seq (.setLoc "b" (.bin .add (.loc "self.sample_right_buf") (.loc "sample_right"))) (.seq (.seq (.setLoc "i" (.int 1)) (.setLoc "j" (.int 1))) (.seq (.setLoc "last" (.loc "self.last")) (.seq (.while_ sinceCond sinceBody) sincePost)))))) := rfl
+
+/-- what the library functions the body calls return -/
+structure Calls (call : Call α) : Prop where
+  len : ∀ l : List (DV α), call "len" [.list l] = .ok (.int l.length)
+  maxV : ∀ x y : α, call "max" [.val x, .val y] = .ok (.val (pmax x y))
+  minV : ∀ x y : α, call "min" [.val x, .val y] = .ok (.val (pmin x y))
+  minP : ∀ (x p : α) (v : DV α), toVal v = .ok p → call "min" [.val x, v] = .ok (.val (pmin x p))
+  maxT : ∀ s t : Tm, call "max" [.tm s, .tm t] = .ok (.tm (tmMax s t))
+  minT : ∀ s t : Tm, call "min" [.tm s, .tm t] = .ok (.tm (tmMin s t))
+
+theorem calls_callAt (fuel k : Nat) : Calls (callAt (α := α) Gen.DenseOn.fns fuel k) where
+  len l := by rw [callAt_builtin _ _ _ _ _ rfl]; simp [builtin]
+  maxV x y := by rw [callAt_builtin _ _ _ _ _ rfl]; exact builtin_max x y (.val y) rfl
+  minV x y := by rw [callAt_builtin _ _ _ _ _ rfl]; exact builtin_min x y (.val y) rfl
+  minP x p v h := by rw [callAt_builtin _ _ _ _ _ rfl]; exact builtin_min x p v h
+  maxT s t := by rw [callAt_builtin _ _ _ _ _ rfl]; simp [builtin, isTimeLike, toTm, tmMax]
+  minT s t := by rw [callAt_builtin _ _ _ _ _ rfl]; simp [builtin, isTimeLike, toTm, tmMin]
+
+/-- the locals between two iterations -/
+structure SInv (env : Env α) (a b : ASig α) (v : DV α) (prev : α) (last : Option (Tm × α)) (res : ASig α) : Prop where
+  a : getLoc "a" env = .ok (encSig a)
+  b : getLoc "b" env = .ok (encSig b)
+  i : getLoc "i" env = .ok (.int 1)
+  j : getLoc "j" env = .ok (.int 1)
+  pv : getLoc "self.prev" env = .ok v
+  tv : toVal v = .ok prev
+  last : getLoc "last" env = .ok (encOptSmp last)
+  res : getLoc "sample_result" env = .ok (encSig res)
+  rlen : resolve env "len" = "len"
+  rmax : resolve env "max" = "max"
+  rmin : resolve env "min" = "min"
+
+/-- the locals after the `if / elif / else` of one iteration -/
+structure SInv2 (env : Env α) (a b : ASig α) (v : DV α) (prev : α) (last : Option (Tm × α)) (res : ASig α)
+    (a0 a1 b0 b1 : Tm) (av bv lv : α) : Prop extends SInv env a b v prev last res where
+  as : getLoc "a_start" env = .ok (.tm a0)
+  ae : getLoc "a_end" env = .ok (.tm a1)
+  bs : getLoc "b_start" env = .ok (.tm b0)
+  be : getLoc "b_end" env = .ok (.tm b1)
+  av : getLoc "a_val" env = .ok (.val av)
+  bv : getLoc "b_val" env = .ok (.val bv)
+  lv : getLoc "last_val" env = .ok (.val lv)
+
+section body
+variable (call : Call α) (fuel : Nat) (C : Calls call)
+include C
+
+theorem pre_spec (rest : S) (env : Env α) (a0 a1 b0 b1 : Tm) (av avn bv bvn : α) (la lb : List (DV α))
+    (ha : getLoc "a" env = .ok (.list (.smp a0 (.val av) :: .smp a1 (.val avn) :: la)))
+    (hb : getLoc "b" env = .ok (.list (.smp b0 (.val bv) :: .smp b1 (.val bvn) :: lb)))
+    (hi : getLoc "i" env = .ok (.int 1)) (hj : getLoc "j" env = .ok (.int 1)) :
+    exec call fuel (sincePre rest) env = exec call fuel rest
+      (setLoc "b_val_next" (.val bvn) (setLoc "a_val_next" (.val avn) (setLoc "b_val" (.val bv) (setLoc "a_val" (.val av)
+        (setLoc "b_end" (.tm b1) (setLoc "b_start" (.tm b0) (setLoc "a_end" (.tm a1) (setLoc "a_start" (.tm a0) env)))))))) := by
+  simp [sincePre, exec, evalE, im1, ha, hb, hi, hj, evalBin, isCmp, arith, evalIdx, pyIndex]
+
+theorem evalE_sv (env : Env α) (x y : String) (X Y prev : α) (v : DV α)
+    (hx : getLoc x env = .ok (.val X)) (hy : getLoc y env = .ok (.val Y))
+    (hpv : getLoc "self.prev" env = .ok v) (htv : toVal v = .ok prev)
+    (hrmax : resolve env "max" = "max") (hrmin : resolve env "min" = "min") :
+    evalE call env (svE x y) = .ok (.val (svV prev X Y)) := by
+  simp [svE, evalE, hx, hy, hpv, hrmax, hrmin, C.minV, C.minP X prev v htv, C.maxV, svV]
+
+omit C in
+theorem evalE_ltT (env : Env α) (x y : String) (s t : Tm)
+    (hx : getLoc x env = .ok (.tm s)) (hy : getLoc y env = .ok (.tm t)) :
+    evalE call env (.bin .lt (.loc x) (.loc y)) = .ok (.bool (Tm.lt s t)) := by
+  simp [evalE, hx, hy, evalBin, isCmp, cmpDV, isTimeLike, toXT, toTm, cmpXT, XT.lt, Except.map]
+
+omit C in
+theorem evalE_gtT (env : Env α) (x y : String) (s t : Tm)
+    (hx : getLoc x env = .ok (.tm s)) (hy : getLoc y env = .ok (.tm t)) :
+    evalE call env (.bin .gt (.loc x) (.loc y)) = .ok (.bool (Tm.lt t s)) := by
+  simp [evalE, hx, hy, evalBin, isCmp, cmpDV, isTimeLike, toXT, toTm, cmpXT, XT.lt, Except.map]
+
+omit C in
+theorem exec_del0 (env : Env α) (x ix : String) (x0 : DV α) (l : List (DV α))
+    (hx : getLoc x env = .ok (.list (x0 :: l))) (hi : getLoc ix env = .ok (.int 1)) :
+    exec call fuel (.delIdx x (im1 ix)) env = .ok (setLoc x (.list l) env, .none) := by
+  simp [exec, evalE, im1, hx, hi, evalBin, isCmp, arith, delAt, pyIndex]
+
+theorem branch_spec (env : Env α) (a1 b1 : Tm) (av avn bv bvn prev : α) (v : DV α) (x0 x1 : DV α) (la : List (DV α))
+    (y0 y1 : DV α) (lb : List (DV α))
+    (hae : getLoc "a_end" env = .ok (.tm a1)) (hbe : getLoc "b_end" env = .ok (.tm b1))
+    (hav : getLoc "a_val" env = .ok (.val av)) (havn : getLoc "a_val_next" env = .ok (.val avn))
+    (hbv : getLoc "b_val" env = .ok (.val bv)) (hbvn : getLoc "b_val_next" env = .ok (.val bvn))
+    (ha : getLoc "a" env = .ok (.list (x0 :: x1 :: la))) (hb : getLoc "b" env = .ok (.list (y0 :: y1 :: lb)))
+    (hi : getLoc "i" env = .ok (.int 1)) (hj : getLoc "j" env = .ok (.int 1))
+    (hpv : getLoc "self.prev" env = .ok v) (htv : toVal v = .ok prev)
+    (hrmax : resolve env "max" = "max") (hrmin : resolve env "min" = "min") :
+    exec call fuel sinceBranch env = .ok (
+      if Tm.lt a1 b1 then setLoc "a" (.list (x1 :: la)) (setLoc "last_val" (.val (svV prev avn bv)) env)
+      else if Tm.lt b1 a1 then setLoc "b" (.list (y1 :: lb)) (setLoc "last_val" (.val (svV prev av bvn)) env)
+      else setLoc "b" (.list (y1 :: lb)) (setLoc "a" (.list (x1 :: la)) (setLoc "last_val" (.val (svV prev avn bvn)) env)),
+      .none) := by
+  unfold sinceBranch
+  rw [exec_ite_bool call fuel (evalE_ltT call env _ _ a1 b1 hae hbe)]
+  cases h1 : Tm.lt a1 b1 with
+  | true =>
+      simp only [if_true]
+      rw [exec_seq_ok call fuel (exec_setLoc call fuel (evalE_sv call C env _ _ avn bv prev v havn hbv hpv htv hrmax hrmin))]
+      exact exec_del0 call fuel _ "a" "i" x0 (x1 :: la) (by simp [ha]) (by simp [hi])
+  | false =>
+      simp only [Bool.false_eq_true, if_false]
+      rw [exec_ite_bool call fuel (evalE_gtT call env _ _ a1 b1 hae hbe)]
+      cases h2 : Tm.lt b1 a1 with
+      | true =>
+          simp only [if_true]
+          rw [exec_seq_ok call fuel (exec_setLoc call fuel (evalE_sv call C env _ _ av bvn prev v hav hbvn hpv htv hrmax hrmin))]
+          exact exec_del0 call fuel _ "b" "j" y0 (y1 :: lb) (by simp [hb]) (by simp [hj])
+      | false =>
+          simp only [Bool.false_eq_true, if_false]
+          rw [exec_seq_ok call fuel (exec_setLoc call fuel (evalE_sv call C env _ _ avn bvn prev v havn hbvn hpv htv hrmax hrmin)),
+            exec_seq_ok call fuel (exec_del0 call fuel _ "a" "i" x0 (x1 :: la) (by simp [ha]) (by simp [hi]))]
+          exact exec_del0 call fuel _ "b" "j" y0 (y1 :: lb) (by simp [hb]) (by simp [hj])
+
+theorem emit_spec {env : Env α} {a b : ASig α} {v : DV α} {prev : α} {last : Option (Tm × α)} {res : ASig α}
+    {a0 a1 b0 b1 : Tm} {av bv lv : α} (h : SInv2 env a b v prev last res a0 a1 b0 b1 av bv lv) :
+    ∃ env' v', exec call fuel sinceEmit env = .ok (env', .none) ∧
+      SInv env' a b v' (if Tm.lt (tmMax a0 b0) (tmMin a1 b1) then svV prev av bv else prev)
+        (if Tm.lt (tmMax a0 b0) (tmMin a1 b1) then some (tmMin a1 b1, lv) else last)
+        (if Tm.lt (tmMax a0 b0) (tmMin a1 b1) then res ++ [(tmMax a0 b0, svV prev av bv)] else res) := by
+  have e1 : exec call fuel sinceEmit env = exec call fuel
+      (.ite (.bin .lt (.loc "lo") (.loc "hi"))
+        (.seq (.setLoc "val" (svE "a_val" "b_val"))
+        (.seq (.appendLoc "sample_result" (.list2 (.loc "lo") (.loc "val")))
+        (.seq (.setLoc "self.prev" (.loc "val")) (.setLoc "last" (.list2 (.loc "hi") (.loc "last_val"))))))
+        .skip)
+      (setLoc "val" .nan (setLoc "hi" (.tm (tmMin a1 b1)) (setLoc "lo" (.tm (tmMax a0 b0)) env))) := by
+    unfold sinceEmit
+    rw [exec_seq_ok call fuel (exec_setLoc call fuel (v := .tm (tmMax a0 b0))
+          (by simp [evalE, h.as, h.bs, h.rmax, C.maxT])),
+      exec_seq_ok call fuel (exec_setLoc call fuel (v := .tm (tmMin a1 b1))
+          (by simp [evalE, h.ae, h.be, h.rmin, C.minT])),
+      exec_seq_ok call fuel (exec_setLoc call fuel (v := .nan) (by simp [evalE]))]
+  rw [e1, exec_ite_bool call fuel (evalE_ltT call _ _ _ (tmMax a0 b0) (tmMin a1 b1) (by simp) (by simp))]
+  cases h3 : Tm.lt (tmMax a0 b0) (tmMin a1 b1) with
+  | false =>
+      refine ⟨setLoc "val" .nan (setLoc "hi" (.tm (tmMin a1 b1)) (setLoc "lo" (.tm (tmMax a0 b0)) env)), v,
+        by simp [exec], ?_⟩
+      simp only [Bool.false_eq_true, if_false]
+      constructor <;> simp [h.a, h.b, h.i, h.j, h.pv, h.tv, h.last, h.res, h.rlen, h.rmax, h.rmin]
+  | true =>
+      simp only [if_true]
+      rw [exec_seq_ok call fuel (exec_setLoc call fuel
+        (evalE_sv call C _ "a_val" "b_val" av bv prev v (by simp [h.av]) (by simp [h.bv]) (by simp [h.pv]) h.tv
+          (by simp [h.rmax]) (by simp [h.rmin])))]
+      refine ⟨setLoc "last" (.smp (tmMin a1 b1) (.val lv)) (setLoc "self.prev" (.val (svV prev av bv))
+        (setLoc "sample_result" (.list (res.map encSmp ++ [.smp (tmMax a0 b0) (.val (svV prev av bv))]))
+        (setLoc "val" (.val (svV prev av bv)) (setLoc "val" .nan (setLoc "hi" (.tm (tmMin a1 b1))
+          (setLoc "lo" (.tm (tmMax a0 b0)) env)))))), .val (svV prev av bv), ?_, ?_⟩
+      · have hr := h.res
+        simp only [encSig] at hr
+        simp [exec, evalE, hr, h.lv, mkList2, toPayload]
+      · constructor <;>
+          simp [h.a, h.b, h.i, h.j, h.rlen, h.rmax, h.rmin, encOptSmp, encSmp, encSig, toVal]
+
+theorem cond_spec {env : Env α} {a b : ASig α} {v : DV α} {prev : α} {last : Option (Tm × α)} {res : ASig α}
+    (h : SInv env a b v prev last res) :
+    (do truthy (← evalE call env sinceCond)) = .ok (decide (1 < a.length) && decide (1 < b.length)) := by
+  have e1 : evalE call env (.bin .gt (.call1 "len" (.loc "a")) (.int 1)) = .ok (.bool (decide (1 < a.length))) := by
+    simp [evalE, h.a, h.rlen, C.len, encSig, evalBin, isCmp, cmpDV, cmpInt, Except.map]
+    omega
+  have e2 : evalE call env (.bin .gt (.call1 "len" (.loc "b")) (.int 1)) = .ok (.bool (decide (1 < b.length))) := by
+    simp [evalE, h.b, h.rlen, C.len, encSig, evalBin, isCmp, cmpDV, cmpInt, Except.map]
+    omega
+  unfold sinceCond
+  rw [evalE, e1]
+  by_cases ha : 1 < a.length
+  · simp [ha, truthy, e2]
+  · simp [ha, truthy]
+
+/-- one iteration -/
+theorem body_spec {env : Env α} {a0 a1 b0 b1 : Tm} {av avn bv bvn : α} {ra rb : ASig α} {v : DV α} {prev : α}
+    {last : Option (Tm × α)} {res : ASig α}
+    (inv : SInv env ((a0, av) :: (a1, avn) :: ra) ((b0, bv) :: (b1, bvn) :: rb) v prev last res) :
+    ∃ env' v', exec call fuel sinceBody env = .ok (env', .none) ∧
+      SInv env' (sinceStep a0 a1 b0 b1 av avn bv bvn ra rb prev last res).1
+        (sinceStep a0 a1 b0 b1 av avn bv bvn ra rb prev last res).2.1 v'
+        (sinceStep a0 a1 b0 b1 av avn bv bvn ra rb prev last res).2.2.1
+        (sinceStep a0 a1 b0 b1 av avn bv bvn ra rb prev last res).2.2.2.1
+        (sinceStep a0 a1 b0 b1 av avn bv bvn ra rb prev last res).2.2.2.2 := by
+  have ha : getLoc "a" env = .ok (.list (.smp a0 (.val av) :: .smp a1 (.val avn) :: ra.map encSmp)) := inv.a
+  have hb : getLoc "b" env = .ok (.list (.smp b0 (.val bv) :: .smp b1 (.val bvn) :: rb.map encSmp)) := inv.b
+  have hpre := pre_spec call fuel C (.seq sinceBranch sinceEmit) env a0 a1 b0 b1 av avn bv bvn _ _ ha hb inv.i inv.j
+  have hbr := branch_spec call fuel C
+    (setLoc "b_val_next" (.val bvn) (setLoc "a_val_next" (.val avn) (setLoc "b_val" (.val bv) (setLoc "a_val" (.val av)
+        (setLoc "b_end" (.tm b1) (setLoc "b_start" (.tm b0) (setLoc "a_end" (.tm a1) (setLoc "a_start" (.tm a0) env))))))))
+    a1 b1 av avn bv bvn prev v (.smp a0 (.val av)) (.smp a1 (.val avn)) (ra.map encSmp)
+    (.smp b0 (.val bv)) (.smp b1 (.val bvn)) (rb.map encSmp) (by simp) (by simp) (by simp) (by simp) (by simp) (by simp)
+    (by simp [ha]) (by simp [hb]) (by simp [inv.i]) (by simp [inv.j]) (by simp [inv.pv]) inv.tv
+    (by simp [inv.rmax]) (by simp [inv.rmin])
+  unfold sinceBody
+  rw [hpre, exec_seq_ok call fuel hbr]
+  unfold sinceStep
+  cases h1 : Tm.lt a1 b1 with
+  | true =>
+      simp only [if_true]
+      refine emit_spec call fuel C (v := v) (lv := svV prev avn bv) ?_
+      constructor
+      · constructor <;> simp [inv.i, inv.j, inv.pv, inv.tv, inv.last, inv.res, inv.rlen, inv.rmax, inv.rmin, hb, encSig, encSmp]
+      all_goals simp
+  | false =>
+      simp only [Bool.false_eq_true, if_false]
+      cases h2 : Tm.lt b1 a1 with
+      | true =>
+          simp only [if_true]
+          refine emit_spec call fuel C (v := v) (lv := svV prev av bvn) ?_
+          constructor
+          · constructor <;> simp [inv.i, inv.j, inv.pv, inv.tv, inv.last, inv.res, inv.rlen, inv.rmax, inv.rmin, ha, encSig, encSmp]
+          all_goals simp
+      | false =>
+          simp only [Bool.false_eq_true, if_false]
+          refine emit_spec call fuel C (v := v) (lv := svV prev avn bvn) ?_
+          constructor
+          · constructor <;> simp [inv.i, inv.j, inv.pv, inv.tv, inv.last, inv.res, inv.rlen, inv.rmax, inv.rmin, encSig, encSmp]
+          all_goals simp
+
+/-- the `while` loop against `sinceLoop` -/
+theorem loop_spec : ∀ (n : Nat) (a b : ASig α) (v : DV α) (prev : α) (last : Option (Tm × α)) (res : ASig α) (env : Env α),
+    a.length + b.length < n → SInv env a b v prev last res →
+    ∃ env' v', whileLoop (fun env => do truthy (← evalE call env sinceCond)) (exec call fuel sinceBody) n env =
+        .ok (env', .none) ∧
+      SInv env' (AlgOn.sinceLoop a b prev last res).1 (AlgOn.sinceLoop a b prev last res).2.1 v' (AlgOn.sinceLoop a b prev last res).2.2.1
+        (AlgOn.sinceLoop a b prev last res).2.2.2.1 (AlgOn.sinceLoop a b prev last res).2.2.2.2 := by
+  intro n
+  induction n with
+  | zero => intro a b v prev last res env hn; omega
+  | succ n ih =>
+      intro a b v prev last res env hn h
+      have hc := cond_spec call C h
+      by_cases hl : a.length < 2 ∨ b.length < 2
+      · rw [sinceLoop_short a b prev last res hl]
+        have hf : (decide (1 < a.length) && decide (1 < b.length)) = false := by
+          rcases hl with hl | hl <;> simp <;> omega
+        rw [hf] at hc
+        exact ⟨env, v, whileLoop_done _ _ _ _ hc, h⟩
+      · have ht : (decide (1 < a.length) && decide (1 < b.length)) = true := by
+          simp; omega
+        rw [ht] at hc
+        obtain ⟨⟨a0, av⟩, ⟨a1, avn⟩, ra, rfl⟩ : ∃ x y r, a = x :: y :: r := by
+          rcases a with _ | ⟨x, _ | ⟨y, r⟩⟩
+          · simp at hl
+          · simp at hl
+          · exact ⟨x, y, r, rfl⟩
+        obtain ⟨⟨b0, bv⟩, ⟨b1, bvn⟩, rb, rfl⟩ : ∃ x y r, b = x :: y :: r := by
+          rcases b with _ | ⟨x, _ | ⟨y, r⟩⟩
+          · simp at hl
+          · simp at hl
+          · exact ⟨x, y, r, rfl⟩
+        obtain ⟨env1, v1, hex, hinv⟩ := body_spec call fuel C h
+        rw [whileLoop_step _ _ _ _ _ hc hex, sinceLoop_step]
+        refine ih _ _ _ _ _ _ env1 ?_ hinv
+        have := sinceStep_length a0 a1 b0 b1 av avn bv bvn ra rb prev last res
+        simp only [List.length_cons] at hn
+        omega
+
+end body
+
+end GOnUn
+
+/-- The object of `SinceOperation` in the state `st` of the mirror. -/
+def SinceRel (st : SinceSt α) (o : DV α) : Prop :=
+  ∃ store, o = .obj "SinceOperation" store ∧ (∀ p ∈ store, isSelfKey p.1 = true) ∧
+    store.lookup "self.sample_left_buf" = some (encSig st.bufA) ∧
+    store.lookup "self.sample_right_buf" = some (encSig st.bufB) ∧
+    (∃ v, store.lookup "self.prev" = some v ∧ toVal v = .ok st.prev) ∧
+    store.lookup "self.last" = some (encOptSmp st.last)
+
 end Rtamt.Py.DnOn
